@@ -8,6 +8,8 @@
      emitted import statements): the future is built from the reply, transport.operations_client and exactly the
      annotated response / metadata classes -- also when their file is not imported by the service's file; the
      un-annotated method returns the raw reply.
+ (3) CrossHair/z3 on the emitted `operations_client` properties of the three transports (lifted unmodified): the polling
+     client is built once per instance, on the instance's own channel (gRPC) resp. host, credentials and scopes (REST).
 """
 from __future__ import annotations
 
@@ -23,7 +25,7 @@ def body(chk: core.Check):
     chk.bound("type_names", "'', Book, IndexReport (other file, not imported), <pkg>.WriteMetadata, google.protobuf.Empty, <pkg>.IndexMetadata")
     chk.stubs += ["google.api_core.operation(_async).from_gapic recorder; lib/fakes transport/recorders; lib/emitted message stand-ins",
                   gen.PANDOC_STUB_NOTE]
-    chk.outside += ["polling histories, unpacking of Any, the operations client on each transport (api_core / gRPC)",
+    chk.outside += ["polling histories, unpacking of Any (api_core / gRPC)",
                     "annotation naming a type that does not exist (KeyError today; the property is silent)"]
     src = open(f"{core.REPO}/gapic/schema/api.py").read()
     i = src.index("def _maybe_get_lro")
@@ -35,7 +37,7 @@ def body(chk: core.Check):
     chk.programs += 1
     chk.encoded("emitted client.py (lro_api)", g.text("services/library/client.py"))
     env = {"VERIF_EMITTED": g.outdir}
-    res = ch.run(H, ["generation", "futures"], timeout=300, env=env, jobs=chk.jobs)
+    res = ch.run(H, ["generation", "futures", "ops_binding"], timeout=300, env=env, jobs=chk.jobs)
     ch.settle(chk, H, res, "lro")
     for r in res:
         chk.sample({"harness": "h08_lro." + r["func"], "status": r["status"], "seconds": r["seconds"]})
@@ -43,6 +45,8 @@ def body(chk: core.Check):
     cn = ch.run(H, ["generation"], timeout=300, env=dict(env, VERIF_CANARY="resolve-root"), jobs=1)[0]
     chk.canary("relative names resolved against the wrong package (in-memory mutant)",
                cn["status"] == "refuted", cn.get("call", cn["status"]))
+    c2 = ch.run(H, ["ops_binding"], timeout=300, env=dict(env, VERIF_CANARY="ops-default-host"), jobs=1)[0]
+    chk.canary("REST operations client bound to DEFAULT_HOST (in-memory mutant)", c2["status"] == "refuted", c2.get("call", c2["status"]))
     # concrete: operations_client property exists on the gRPC transports and the REST transport
     for t in ("grpc.py", "grpc_asyncio.py", "rest.py"):
         if "def operations_client" in g.text(f"services/library/transports/{t}"):
